@@ -1479,4 +1479,80 @@ theorem lookupLatest_none {cmp : Str → Str → Int} (g : GoodOrd cmp) {db : Db
   obtain ⟨j, hj, hget⟩ := List.mem_iff_getElem.mp hst
   exact this j st w hj (by simp [List.getElem?_eq_getElem hj, hget])
 
+
+/-! ## the driver's local order satisfies the order hypotheses -/
+
+theorem cmpComps_refl (a : List Nat) : cmpComps a a = 0 := by
+  induction a with
+  | nil => rfl
+  | cons x xs ih => simp [cmpComps, ih]
+
+theorem cmpComps_range (a b : List Nat) : cmpComps a b = -1 ∨ cmpComps a b = 0 ∨ cmpComps a b = 1 := by
+  induction a generalizing b with
+  | nil => cases b <;> simp [cmpComps]
+  | cons x xs ih =>
+    cases b with
+    | nil => simp [cmpComps]
+    | cons y ys =>
+      simp only [cmpComps]
+      split
+      · simp
+      · split
+        · simp
+        · exact ih ys
+
+theorem cmpComps_antisymm (a b : List Nat) : cmpComps b a = - cmpComps a b := by
+  induction a generalizing b with
+  | nil => cases b <;> simp [cmpComps]
+  | cons x xs ih =>
+    cases b with
+    | nil => simp [cmpComps]
+    | cons y ys =>
+      simp only [cmpComps]
+      by_cases h1 : x < y
+      · have : ¬ y < x := by omega
+        simp [h1, this]
+      · by_cases h2 : y < x
+        · simp [h1, h2]
+        · simp [h1, h2, ih ys]
+
+theorem cmpComps_trans (a b c : List Nat) (h1 : cmpComps a b ≤ 0) (h2 : cmpComps b c ≤ 0) : cmpComps a c ≤ 0 := by
+  induction a generalizing b c with
+  | nil => cases c <;> simp [cmpComps]
+  | cons x xs ih =>
+    cases b with
+    | nil => simp [cmpComps] at h1
+    | cons y ys =>
+      cases c with
+      | nil => simp [cmpComps] at h2
+      | cons z zs =>
+        simp only [cmpComps] at h1 h2 ⊢
+        by_cases hxy : x < y
+        · by_cases hyz : y < z
+          · have : x < z := by omega
+            simp [this]
+          · by_cases hzy : z < y
+            · simp [hyz, hzy] at h2
+            · have : x < z := by omega
+              simp [this]
+        · by_cases hyx : y < x
+          · simp [hxy, hyx] at h1
+          · have hxy' : x = y := by omega
+            subst hxy'
+            simp only [hxy, if_false] at h1
+            by_cases hxz : x < z
+            · simp [hxz]
+            · by_cases hzx : z < x
+              · simp [hxz, hzx] at h2
+              · simp only [hxz, hzx, if_false] at h2 ⊢
+                exact ih ys zs h1 h2
+
+theorem simpleCmp_good : GoodOrd simpleCmp where
+  refl a := by simp [simpleCmp, cmpComps_refl]
+  flip a b h := by
+    unfold simpleCmp at h ⊢
+    rw [cmpComps_antisymm]
+    omega
+  trans a b c h1 h2 := cmpComps_trans _ _ _ h1 h2
+
 end EupsModel.Vro
